@@ -16,7 +16,7 @@ ASSUMPTIONS = S.ASSUMPTIONS
 
 def cases(rng, tier):
     out = []
-    for i in range(2500 if tier == 'thorough' else 450):
+    for i in range(6000 if tier == 'thorough' else 450):
         out.append(S.scenario_case(S.gen_capability(rng, big=(tier == 'thorough' or i % 6 == 0)), 'capability'))
     for _ in range(400 if tier == 'thorough' else 80):
         out.append(S.scenario_case(S.gen_forged_window(rng), 'forged-window'))
@@ -25,7 +25,7 @@ def cases(rng, tier):
 
 def direct(rng, tier, focus=()):
     big = tier == 'thorough'
-    fams = [('capability', lambda r: S.gen_capability(r), 40000 if big else 4000),
+    fams = [('capability', lambda r: S.gen_capability(r), 100000 if big else 4000),
             ('forged-window', lambda r: S.gen_forged_window(r), 3000 if big else 300),
             ('transaction', lambda r: S.gen_transaction(r, big=r.random() < 0.2), 10000 if big else 1000)]
     failures, stats = S.direct_families(rng, fams, S.check_c12, focus)
